@@ -143,6 +143,19 @@ func patchMutants(ps *lib.PatchStream) []mutant {
 					return ms
 				})
 			}
+			if m.Type != pwr.SyncOp_HEY_YOU_DID_IT {
+				// extra ops right after this one (after a full-file op they are "trailing ops" the patcher skips)
+				for _, v := range []int64{-1, nOld, 1 << 62} {
+					v := v
+					for _, t := range []pwr.SyncOp_Type{pwr.SyncOp_BLOCK_RANGE, pwr.SyncOp_DATA} {
+						t := t
+						add(fmt.Sprintf("msg%d followed by extra op type=%d fileIndex=%d", i, t, v), func(ms []proto.Message) []proto.Message {
+							extra := &pwr.SyncOp{Type: t, FileIndex: v, BlockIndex: 0, BlockSpan: 1}
+							return append(ms[:i+1:i+1], append([]proto.Message{extra}, ms[i+1:]...)...)
+						})
+					}
+				}
+			}
 			if m.Type == pwr.SyncOp_HEY_YOU_DID_IT {
 				add(fmt.Sprintf("msg%d end-marker dropped", i), func(ms []proto.Message) []proto.Message { return append(ms[:i:i], ms[i+1:]...) })
 				add(fmt.Sprintf("msg%d end-marker duplicated", i), func(ms []proto.Message) []proto.Message {
